@@ -34,6 +34,20 @@ def sweep_chains(quick):
                     1: {"name": "TWO", "chain": ch2, "points": [3, 4, 900, 5, 6], "mode": 2, "freq": 3, "seq": 2}})}
 
 
+def sweep_endmarks(quick):
+    """every end-of-chain word 0xFFF8..0xFFFF, chains of 1..3 clusters in both orders"""
+    for end in range(0xFFF8, 0x10000):
+        for m in (1, 2, 3):
+            for order in ("asc", "desc"):
+                ch = list(range(2, 2 + m))
+                if order == "desc":
+                    ch = ch[::-1]
+                nw = m * CW
+                yield {"sweep": "endmarks", "model": simple_model({
+                    0: {"name": "ENDW", "chain": ch, "points": [1, 1, nw - 1, 2, 3], "mode": 0, "seq": 4, "end_word": end},
+                    1: {"name": "TWO", "chain": [6], "points": [0, 4, 77, 5, 6], "mode": 2, "seq": 2, "end_word": 0xFFF8 + (end & 7) ^ 5}})}
+
+
 def sweep_window(quick):
     for mode in range(7):
         for start in (0, 1):
@@ -181,7 +195,7 @@ class Check(CheckBase):
     rule = ("union of exhaustive sweeps over writer-generated 2.9 MB images: (chains) sample of m in {1,2,3} clusters "
             "+ a second sample, all injective cluster assignments over pool m+2 x cluster_top {0,1,m-1}; (window) 7 loop "
             "modes x start {0,1} x end on {start, cluster-2, cluster-1 (fills cluster), cluster, 2*cluster-1} written to "
-            "the field the mode selects with a conflicting value in the other x chain order; (header) 6 frequency codes "
+            "the field the mode selects with a conflicting value in the other x chain order; (endmarks) every end-of-chain word 0xFFF8..0xFFFF x chain length x order; (header) 6 frequency codes "
             "x FAT version x key x name padding; (topology) base reference graph + every single edge flip of "
             "volume->performance->patch->partial->sample relations [thorough: all pairs of flips], no volumes, four "
             "samples per partial, unreferenced sample, orphan performance. non-trivial = permuted chain, cluster_top>0, "
@@ -191,7 +205,7 @@ class Check(CheckBase):
 
     def shards(self):
         cases = []
-        for sw in (sweep_window, sweep_header, sweep_chains, sweep_topology):
+        for sw in (sweep_window, sweep_header, sweep_endmarks, sweep_chains, sweep_topology):
             cases.extend(sw(self.quick))
         return self.chunk(cases, 6 if self.quick else 20)
 
